@@ -98,6 +98,19 @@ FlatOv(valid) ==
   FlattenSeq([t \in 1..Len(IdxCount) |->
                 [b \in 1..Dims[OvDim].n |-> RSt(OvCell(IdxCount[t], b, valid), WS)]])
 
+\* the response header: rows considered, rows that fall in no valid cell, and -- for a
+\* numeric measure -- rows without a value (the measures' n_missing)
+InSomeValidCell(k) == \E t \in 1..Len(IdxCount) :
+                        ValidIdx(CountAxes, IdxCount[t]) /\ Consistent(k.p, CountAxes, IdxCount[t])
+Header ==
+  [ n        |-> NResp,
+    missing  |-> SumResp(LAMBDA k : IF InSomeValidCell(k) THEN 0 ELSE 1),
+    ymissing |-> IF HasNumArr
+                 THEN SumResp(LAMBDA k : IF \A i \in 1..Dims[NumArrDim].n :
+                                               k.p[VarOf(NumArrDim)][i] = NA THEN 1 ELSE 0)
+                 ELSE IF HasY THEN SumResp(LAMBDA k : IF k.p["y"][1] = NA THEN 1 ELSE 0)
+                 ELSE 0 ]
+
 FlatY ==
   [ vcu    |-> FlatI(CellNV, IdxAll),
     vcw    |-> FlatI(LAMBDA i : RSt(CellWV(i), "w"), IdxAll),
